@@ -3,7 +3,7 @@
    a lemma of IterInv.v, with Print Assumptions beneath. *)
 From Coq Require Import List Permutation Bool.
 Import ListNotations.
-Require Import Aiuti.Iter Aiuti.IterInv Aiuti.Case_C18 Aiuti.Case_C18_Sound.
+Require Import Aiuti.Iter Aiuti.IterInv Aiuti.Case_C18 Aiuti.Case_C18_Sound Aiuti.Case_C18_Complete.
 
 (* For every source xs, condition stream cs and every order [ops] of next() calls
    on the two iterators (any interleaving, any abandoning): what side sd yielded
@@ -73,6 +73,17 @@ Theorem monitor_sound :
     el = seq 0 (last_evals observed).
 Proof. exact ok_sound. Qed.
 Print Assumptions monitor_sound.
+
+(* ... and it accepts every trace the model can produce, for all inputs: so on
+   any case where the implementation's trace equals the model's, the monitor
+   cannot raise a false alarm. *)
+Theorem monitor_complete :
+  forall callable xs cs, (callable = true -> length cs = length xs) -> forall ops,
+    ok (CSplit callable xs cs ops (fst (run callable xs cs ops init))
+               (plog (snd (run callable xs cs ops init)))
+               (elog (snd (run callable xs cs ops init)))) = true.
+Proof. exact ok_complete. Qed.
+Print Assumptions monitor_complete.
 
 (* Non-vacuity: a concrete interleaved run that yields on both sides, stops on
    both, with a condition shorter than the source. *)
